@@ -47,6 +47,7 @@ func NewTokenBucketRateLimiter(maxTokens int, refillRate time.Duration) *TokenBu
 func (rl *TokenBucketRateLimiter) Allow(clientIP string) bool {
 	b := rl.getOrCreateBucket(clientIP)
 
+	vgate("rl:lock")
 	b.mutex.Lock()
 	defer b.mutex.Unlock()
 
@@ -121,6 +122,7 @@ func (rl *TokenBucketRateLimiter) cleanup() {
 		ip := key.(string)
 		b := value.(*bucket)
 
+		vgate("rl:clean")
 		b.mutex.Lock()
 		shouldDelete := b.lastRefill.Before(cutoff)
 		b.mutex.Unlock()
